@@ -5,6 +5,8 @@ import (
 	"fmt"
 	"math/rand"
 	"sort"
+	"sync"
+	"time"
 
 	"github.com/ulikunitz/lz/suffix"
 	"verif/core"
@@ -74,7 +76,85 @@ func (p *c09prop) Plan(tier string, seed int64) []core.Segment {
 		{Kind: "symbolic", N: fam * 100},
 		{Kind: "runpattern", N: fam * 60},
 		{Kind: "big", N: big, Chunk: 1},
+		{Kind: "overlap", N: 3 * tierScale(tier, 5), Chunk: 1},
 	}
+}
+
+// runOverlap: the functions keep no state between calls, so calls on disjoint
+// arguments that overlap in time (several goroutines) must return what they
+// return alone. Eight goroutines sort, invert and compute LCP tables of their
+// own texts for several rounds; every result is checked like a single call.
+func runOverlap(c *core.Case, st *core.Stats) []core.Violation {
+	r := core.Rand(c.Seed, "C09", c.Kind, c.Idx)
+	const G = 8
+	texts := make([][]byte, G)
+	for g := range texts {
+		n := 20000 + r.Intn(150000)
+		switch g % 4 {
+		case 0:
+			texts[g] = bstarText(r, n)
+		case 1:
+			texts[g] = gen.Family(r, "rand2", n, gen.Hint{})
+		case 2:
+			texts[g] = gen.Family(r, "text", n, gen.Hint{})
+		default:
+			texts[g] = gen.Family(r, "rand256", n, gen.Hint{})
+		}
+	}
+	errs := make([]string, G)
+	var wg sync.WaitGroup
+	start := make(chan struct{})
+	for g := 0; g < G; g++ {
+		wg.Add(1)
+		go func(g int) {
+			defer wg.Done()
+			defer func() {
+				if pv := recover(); pv != nil {
+					errs[g] = fmt.Sprintf("panic: %v", pv)
+				}
+			}()
+			<-start
+			t := texts[g]
+			for round := 0; round < 3; round++ {
+				sa := make([]int32, len(t))
+				for i := range sa {
+					sa[i] = -7
+				}
+				suffix.Sort(t, sa)
+				if why := ref.CheckSA(t, sa); why != "" {
+					errs[g] = "suffix.Sort: " + why
+					return
+				}
+				lcp := make([]int32, len(t))
+				suffix.LCP(t, nil, nil, lcp)
+				want := ref.Kasai(t, sa)
+				for i := range want {
+					if lcp[i] != want[i] {
+						errs[g] = fmt.Sprintf("suffix.LCP: lcp[%d]=%d, want %d", i, lcp[i], want[i])
+						return
+					}
+				}
+			}
+		}(g)
+	}
+	close(start)
+	done := make(chan struct{})
+	go func() { wg.Wait(); close(done) }()
+	select {
+	case <-done:
+	case <-time.After(10 * time.Minute):
+		// the per-case CPU watchdog of the worker decides; this only keeps
+		// the goroutine from waiting for ever on a deadlocked group
+	}
+	st.Inc("overlapping_call_groups")
+	st.Add("overlapping_calls", G*3*2)
+	for g, e := range errs {
+		if e != "" {
+			return []core.Violation{core.V(c, "overlapping-calls-differ", "8 goroutines call suffix.Sort/LCP on their own texts at the same time: goroutine %d (text of %d bytes): %s", g, len(texts[g]), e)}
+		}
+	}
+	st.NonTrivial(c)
+	return nil
 }
 
 // bstarText builds texts whose reduced B*-substring problem has runs,
@@ -309,6 +389,8 @@ func (p *c09prop) Gen(kind string, idx int64, seed int64, tier string) core.Case
 	class, arg := splitKind(kind)
 	var sc SfxCase
 	switch {
+	case kind == "overlap":
+		sc = SfxCase{Family: "overlap"} // texts are drawn in runOverlap
 	case kind == "fixed":
 		sc = SfxCase{Text: c09fixed[idx], Family: "fixed"}
 	case class == "exh2":
@@ -375,6 +457,9 @@ func (p *c09prop) Gen(kind string, idx int64, seed int64, tier string) core.Case
 }
 
 func (p *c09prop) Run(c *core.Case, st *core.Stats) []core.Violation {
+	if c.Kind == "overlap" {
+		return runOverlap(c, st)
+	}
 	sc, err := decode[SfxCase](c)
 	if err != nil {
 		return []core.Violation{core.V(c, "harness", "bad case: %v", err)}
@@ -476,7 +561,7 @@ func init() {
 	core.Register(&c09prop{base{id: "C09", level: "exploration",
 		rule:        "exhaustive small scope (all strings over {a,b} up to length 14 (thorough 16) and over {a,b,c} up to length 8 (thorough 10)) plus seeded families (runs of two letters, periodic with glitches, random over 2..256 letters, Fibonacci, Thue-Morse, period doubling, de Bruijn, LZ-synthetic, source text, concatenations, all-256-byte-values) at lengths 0..3000, a B*-shaped family (words whose reduced rank string has runs, tandem repeats and long ramps, optionally doubled) and big texts (quick to 100 kB, thorough to 4 MiB incl. 3-fold concatenated source text); sa is pre-filled with negative garbage; oracles: naive suffix sort and naive LCP for n <= 2000, linear-time suffix array checker + independent Kasai beyond; LCP is called with sa+sainv, with sa only and with neither; non-trivial iff len(t) >= 2; distinct = distinct text",
 		assumptions: []string{"default sort thresholds only (the property is about suffix.Sort)", "which internal sorter paths ran is reported from coverage counters in the thorough tier, never part of the verdict"},
-		mandatory:   []string{"texts_sorted", "lcp_tables_checked", "texts_checked_by_linear_checker", "family:bstar", "family:all256"}}})
+		mandatory:   []string{"texts_sorted", "lcp_tables_checked", "texts_checked_by_linear_checker", "family:bstar", "family:all256", "overlapping_call_groups"}}})
 }
 
 // ---------------------------------------------------------------- C10
